@@ -400,6 +400,16 @@ func genOutcomeCases(g *G, n int, tag string) {
 func genHistoryCases(g *G, n int, maxRounds int, tag string) {
 	for i := 0; i < n; i++ {
 		w := newWorld(g)
+		if g.R.Intn(25) == 0 { // a configuration the factory must not accept
+			switch g.R.Intn(3) {
+			case 0:
+				w.version, w.interval = 1, 0
+			case 1:
+				w.version, w.interval = 0, uint64(1+g.R.Intn(5))
+			default:
+				w.version = uint32(2 + g.R.Intn(5))
+			}
+		}
 		rounds := []any{}
 		nr := 2 + g.R.Intn(maxRounds-1)
 		for r := 0; r < nr; r++ {
